@@ -62,7 +62,23 @@ def ident(R, ctx):
             by_branch = any(kd == "then" and cond.get("k") != "Unary" and M.mentions(fa, cond, IVI, 0) for cond, kd in guards.conditions_of(fa, c))
             by_chain = any(y.get("fname") == "filter" and any(IVI(z) for cl in y["args"] if cl.get("k") == "Closure" for z in thir.walk(cl["body"]["body"]))
                            for y in ctx.an.deep_source_calls(fa, a))
-            ok = by_branch or by_chain
+            # ... or the string comes out of a local helper that tests it on every path that hands it on: an `if`, a match guard
+            # (`Ok(key) if is_valid_identifier(&key) => Some(key)`) or a filter inside that helper
+            def helper_checks(q):
+                for x in thir.walk(thir.body_of(q)):
+                    if x.get("k") == "If" and any(IVI(z) for z in thir.walk(x.get("cond", {}))):
+                        return True
+                    if x.get("k") == "Match" and any("guard" in arm and any(IVI(z) for z in thir.walk(arm["guard"])) for arm in x["arms"]):
+                        return True
+                    if x.get("k") == "Call" and x.get("fname") in ("filter", "take_if", "then_some", "then") and any(IVI(z) for z in thir.walk(x)):
+                        return True
+                return False
+            by_helper = False
+            for y in ctx.an.deep_source_calls(fa, a):
+                q = lib.fn(callee_of(y) or "")
+                if q is not None and thir.body_of(q) and "String" in lib.ty_str(y["t"]) and helper_checks(q):
+                    by_helper = True
+            ok = by_branch or by_chain or by_helper
             R.ob(rid, "%s|%s@%d" % (short, c["fn"].split("::")[-2], k), ok, ctx.where(f2, c.get("ln")),
                  "name built from a run-time string %s" % ("under is_valid_identifier" if ok else "WITHOUT is_valid_identifier: a key such as `end`, `1a` or `a-b` is emitted as a bare name (invalid Lua or another key)"))
         R.require(rid, "%s|floor" % short, k >= 1, ctx.where(fn), "%d guarded constructions in this function" % k)
